@@ -835,6 +835,13 @@ func (in *Interp) bytesToBig(v value) *smt.Term {
 	for _, b := range bs[1:] {
 		t = in.ctx.Concat(t, b)
 	}
+	// the bytes are exactly the image of a big integer u materialised on this path (bigToBytes forked on its byte
+	// length, so 0 <= u < 2^(8L) holds here): the value is u itself
+	if t.Op == "int2bv" {
+		if m, ok := in.bigMat[t.A[0].ID]; ok && 8*len(m) == t.S.W {
+			return t.A[0]
+		}
+	}
 	r := in.ctx.BV2Nat(t)
 	return r
 }
@@ -1227,7 +1234,7 @@ func (in *Interp) sprintfExact(format value, args sliceV) (value, bool) {
 			lit("%")
 			continue
 		}
-		if f[i] != 's' && f[i] != 'v' && f[i] != 'd' {
+		if f[i] != 's' && f[i] != 'v' && f[i] != 'd' && f[i] != 'x' {
 			return nil, false
 		}
 		if ai >= len(args) {
@@ -1240,7 +1247,7 @@ func (in *Interp) sprintfExact(format value, args sliceV) (value, bool) {
 		}
 		switch v := a.v.(type) {
 		case string, *symStr:
-			if f[i] == 'd' {
+			if f[i] == 'd' || f[i] == 'x' {
 				return nil, false
 			}
 			if _, isStr := a.t.Underlying().(*types.Basic); !isStr || in.hasMethod(a.t, "String") || in.hasMethod(a.t, "Error") {
@@ -1255,7 +1262,11 @@ func (in *Interp) sprintfExact(format value, args sliceV) (value, bool) {
 			if in.hasMethod(a.t, "String") || in.hasMethod(a.t, "Error") {
 				return nil, false
 			}
-			lit(in.termInt(v, a.t).String())
+			if f[i] == 'x' {
+				lit(in.termInt(v, a.t).Text(16)) // %x of an integer: lower-case hex, sign first (as fmt prints it)
+			} else {
+				lit(in.termInt(v, a.t).String())
+			}
 		default:
 			return nil, false
 		}
